@@ -11,4 +11,8 @@ if [ "$1" = "--replay" ]; then
   exec ./bin/scriggosa -replay "$2" -repo "$REPO" -verif "$(pwd)"
 fi
 TIER=${2:-${VERIF_TIER:-quick}}
+if [ "$TIER" = "thorough" ]; then
+  # self-test corpus first (never affects the verdict about /repo); its summary is embedded in the evidence
+  ./tools/selftest.sh "$1" || true
+fi
 exec ./bin/scriggosa -property "$1" -tier "$TIER" -repo "$REPO" -verif "$(pwd)"
